@@ -12,7 +12,8 @@ Local Open Scope string_scope.
    DeepDiff(x, y, view='delta', _parameters=...)._get_rough_distance() of a pairing decision ([post] = true:
    the add/remove rewrite has happened).
    Result: the distance, the operation count, the two item lengths, the type-change guard, the
-   no-repeated-items guard on t1, whether any pairing is recorded. *)
+   no-repeated-items guard on t1, and (pairing call without report_repetition) the hypothesis [mutual_ok] of
+   C19_pair_distance_range_default on the nested run's levels. *)
 Definition dist_io_case (post : bool) (c : cfg) (rep : bool) (ps : list (path * list (nat * nat)))
            (inc : list (value * value * bool)) (cutoff : float) (t1 t2 : value) : sx :=
   let r0 := diff_io hexhash (fun _ _ => []) no_paths no_paths c rep (tbl_pairs ps) t1 t2 [] [] in
@@ -21,4 +22,5 @@ Definition dist_io_case (post : bool) (c : cfg) (rep : bool) (ps : list (path * 
   SL [sx_rough (rough_distance (RVal t1) (RVal t2) cutoff d); sx_lres (item_length d);
       sx_nat (count t1); sx_nat (count t2);
       sx_bool (tcs_ok (tbl_incl inc) (fst r0));
-      sx_bool (uniq_items hexhash c rep t1)].
+      sx_bool (uniq_items hexhash c rep t1);
+      sx_bool (if post && negb rep then mutual_ok (fst r0) else true)].
